@@ -131,6 +131,8 @@ pub enum Pre {
     SawFinalAck(u16, u32),
     /// gate of the script step with this index has been entered (handler running)
     HandlerEntered(usize),
+    /// fewer than n QoS1/2 publishes sent by the peer are without their final ack from the endpoint
+    WindowBelow(u16),
 }
 
 #[derive(Clone, Debug)]
@@ -180,6 +182,8 @@ pub struct PeerPlan {
     pub pubcomp_any_order: bool,
     /// use the long form for v5 acks
     pub long_acks: bool,
+    /// server roles: do not send CONNECT first (the script starts with some other packet)
+    pub skip_connect: bool,
 }
 
 #[derive(Clone, Debug, PartialEq, Eq)]
